@@ -133,6 +133,16 @@ def run_config(case, res):
 
     out = run_runner_case(case, [sink])
     if out.error is not None:
+        import re
+
+        frames = re.findall(r'File "([^"]+)", line \d+, in (\S+)', out.tb or "")
+        if frames and frames[-1][0].replace("\\", "/").endswith("pams/fundamentals.py") and \
+                not isinstance(out.error, (ValueError, AssertionError)):
+            # the process itself broke down on markets it accepted (no deliberate refusal is an IndexError / KeyError /
+            # TypeError raised from inside the generator): no fundamental value is delivered at all
+            res.violation("process", "fundamental-generation-raised-for-accepted-markets",
+                          {"exc": repr(out.error), "where": "%s in %s" % frames[-1], "config": case["config"]})
+            return
         res.inconc("valid market configuration aborted: %r %s" % (out.error, (out.tb or "")[-400:]))
         return
     sim = out.simulator
@@ -657,3 +667,15 @@ def run_case(case, res):
                 run_walk(case, res)
         except FloatingPointError as e:
             res.violation("finite", "floating-point-error-while-generating-fundamentals", {"exc": repr(e)})
+        except (IndexError, KeyError, TypeError, AttributeError, np.linalg.LinAlgError) as e:
+            # every request of the walk that can be refused by design is made inside its own try block; an error of
+            # these kinds that comes from inside the generator on an admissible request means that no value is delivered
+            import traceback
+
+            tb = traceback.extract_tb(e.__traceback__)
+            if tb and tb[-1].filename.replace("\\", "/").endswith("pams/fundamentals.py"):
+                res.violation("process", "fundamental-generation-raised-for-accepted-markets",
+                              {"exc": repr(e), "where": "%s line %d" % (tb[-1].name, tb[-1].lineno),
+                               "called_from": ["%s:%d" % (f.name, f.lineno) for f in tb if "/pamsmon/" in f.filename][-2:]})
+            else:
+                raise
